@@ -367,6 +367,9 @@ func compareCase(e *Env, c *Case, key, broken string) (im Outcome, mo Outcome, o
 //     computed from the first context (a folded constant, a memoised default, a cached sequence) may survive.
 var cfgTick int
 
+// forceOracles makes the sampled oracles of compareCase run on every case (set around hand-written corpora)
+var forceOracles bool
+
 func perturb(v any) any {
 	switch x := v.(type) {
 	case int:
@@ -395,7 +398,7 @@ func perturb(v any) any {
 
 func configAndPerturbOracle(e *Env, c *Case, im Outcome) {
 	cfgTick++
-	if cfgTick%5 != 0 || c.FailAt >= 0 || c.Config != "" || len(c.SpyFilters)+len(c.SpyFunctions)+len(c.SpyTests) > 0 || im.Class == "panic" || im.Class == "timeout" {
+	if (cfgTick%5 != 0 && !forceOracles) || c.FailAt >= 0 || c.Config != "" || len(c.SpyFilters)+len(c.SpyFunctions)+len(c.SpyTests) > 0 || im.Class == "panic" || im.Class == "timeout" {
 		return
 	}
 	for _, cfg := range []string{"cache-off", "dev", "auto-reload"} {
